@@ -367,7 +367,9 @@ static const struct {
 	int err;
 } ACCF[] = {{"accept", ECONNABORTED}, {"accept", EMFILE}, {"accept", EINTR}, {"accept", ENFILE}, {"accept", ENOBUFS}, {"accept", ENOMEM}, {"accept", EPROTO}, {"fcntl", EINVAL}, {"setsockopt", EINVAL}, {"getsockname", EINVAL},
       /* "malloc", n: the n-th allocation made on behalf of the new connection fails (a connection attempt that aborts for lack of memory) */
-      {"malloc", 1}, {"malloc", 2}, {"malloc", 3}, {"malloc", 4}, {"malloc", 5}, {"malloc", 6}};
+      {"malloc", 1}, {"malloc", 2}, {"malloc", 3}, {"malloc", 4}, {"malloc", 5}, {"malloc", 6},
+      /* the descriptor table is full: accept fails with EMFILE again and again, the connection stays queued, until a descriptor is free */
+      {"fdlimit", 0}};
 #define NACCF ((int)(sizeof(ACCF) / sizeof(ACCF[0])))
 
 static void run_accept(void)
@@ -385,7 +387,10 @@ static void run_accept(void)
 	for (int i = 0; i <= NHIST; i++) {
 		if (!twin && i == pos) {
 			bool nomem = strcmp(ACCF[f].call, "malloc") == 0;
-			if (nomem) {
+			bool fdfull = strcmp(ACCF[f].call, "fdlimit") == 0;
+			if (fdfull) {
+				sim_set_fd_limit(sim_open_fds(), false);
+			} else if (nomem) {
 				sim_heap_fail_nth(ACCF[f].err);
 			} else {
 				sim_fail_next(ACCF[f].call, ACCF[f].err, -1);
@@ -395,6 +400,14 @@ static void run_accept(void)
 				sim_client_send(c, CL_WS_UPGRADE_REQUEST, strlen(CL_WS_UPGRADE_REQUEST)); /* the websocket peer is built when the request arrives */
 			}
 			jx_settle();
+			if (fdfull) {
+				/* the daemon must have gone back to its event loop with the attempt still queued (a daemon that spins on accept never
+				 * gets here: the simulated kernel reports a livelock); now a descriptor becomes available again */
+				if (sim_fd_limit_hits() == 0) {
+					xp_harness_error("the descriptor limit was never hit");
+				}
+				sim_set_fd_limit(0, false);
+			}
 			if (nomem) {
 				long fired = sim_heap_failures();
 				sim_heap_fail_nth(0);
@@ -464,6 +477,6 @@ const struct driver drv_c11 = {
     .name = "c11",
     .property = "C11",
     .run = run,
-    .rule = "section 0: a 15-step history of healthy traffic between H1 (raw) and H2 (websocket) - change, add, remove, re-add, routed set/call with owner replies, a second fetch, get, requests routed to X - x 7 faults of the peer X that subscribed first (stops reading, one writev fails, reset seen by writev / epoll / read, invalid JSON, oversize length) x every position of the history x {X only subscribes, X also owns elements, X also has a routed request in flight to H1 that H1 answers in the middle of the history}; deviation budget 1: a second event later on (window opens again / X is reset); section 1: a fourth party's connection attempt on each of the 3 listeners with accept failing (ECONNABORTED, EMFILE, EINTR, ENFILE, ENOBUFS, ENOMEM, EPROTO) or fcntl / setsockopt / getsockname failing, or the n-th allocation (n = 1..6) made for the new connection failing, at every position; oracle: H1's, H2's and a fresh peer's decoded streams equal the healthy twin's line by line, except that a response may be replaced by an error response with the same id; notifications about X's own elements are ignored; nobody but X is dropped; the listener still accepts; resources return to baseline",
+    .rule = "section 0: a 15-step history of healthy traffic between H1 (raw) and H2 (websocket) - change, add, remove, re-add, routed set/call with owner replies, a second fetch, get, requests routed to X - x 7 faults of the peer X that subscribed first (stops reading, one writev fails, reset seen by writev / epoll / read, invalid JSON, oversize length) x every position of the history x {X only subscribes, X also owns elements, X also has a routed request in flight to H1 that H1 answers in the middle of the history}; deviation budget 1: a second event later on (window opens again / X is reset); section 1: a fourth party's connection attempt on each of the 3 listeners with accept failing (ECONNABORTED, EMFILE, EINTR, ENFILE, ENOBUFS, ENOMEM, EPROTO) or fcntl / setsockopt / getsockname failing, or the n-th allocation (n = 1..6) made for the new connection failing, or accept failing with EMFILE for as long as the descriptor table is full, at every position; oracle: H1's, H2's and a fresh peer's decoded streams equal the healthy twin's line by line, except that a response may be replaced by an error response with the same id; notifications about X's own elements are ignored; nobody but X is dropped; the listener still accepts; resources return to baseline",
     .assumptions = "param big = size of the values (with the 5120-byte write buffer of the default build the buffer of a stalled peer only fills with large values; the tiny build has a 96-byte buffer)|an error response instead of a success response is tolerated for every request of a healthy peer as long as all other output (notifications, get results) is identical, i.e. the request took effect",
 };
